@@ -10,7 +10,7 @@ use std::{
     cmp::Ordering,
     collections::HashMap,
     error::Error,
-    ops::{BitAnd, BitOr, BitXor, Deref, Shl, Shr},
+    ops::{BitAnd, BitOr, BitXor, Deref},
 };
 
 use crate::circuit::iden3calc::proto;
@@ -106,8 +106,8 @@ impl Operation {
             Geq => u_gte(&a, &b),
             Land => U256::from(a != U256::ZERO && b != U256::ZERO),
             Lor => U256::from(a != U256::ZERO || b != U256::ZERO),
-            Shl => compute_shl_uint(a, b),
-            Shr => compute_shr_uint(a, b),
+            Shl => fr_to_u256(&shl(u256_to_fr(&a), u256_to_fr(&b))),
+            Shr => fr_to_u256(&shr(u256_to_fr(&a), u256_to_fr(&b))),
             // TODO test with conner case when it is possible to get the number
             //      bigger then modulus
             Bor => reduce_once(a.bitor(b)),
@@ -404,18 +404,6 @@ fn reduce_once(x: U256) -> U256 {
     }
 }
 
-fn compute_shl_uint(a: U256, b: U256) -> U256 {
-    debug_assert!(b.lt(&U256::from(256)));
-    let ls_limb = b.as_limbs()[0];
-    a.shl(ls_limb as usize)
-}
-
-fn compute_shr_uint(a: U256, b: U256) -> U256 {
-    debug_assert!(b.lt(&U256::from(256)));
-    let ls_limb = b.as_limbs()[0];
-    a.shr(ls_limb as usize)
-}
-
 /// All references must be backwards.
 fn assert_valid(nodes: &[Node]) {
     for (i, &node) in nodes.iter().enumerate() {
@@ -687,6 +675,15 @@ fn shl(a: Fr, b: Fr) -> Fr {
         return a;
     }
 
+    // circom: for p/2 < k < p, x << k = x >> (p - k)
+    if HALF_M < fr_to_u256(&b) {
+        return shr_by(a, -b);
+    }
+    shl_by(a, b)
+}
+
+fn shl_by(a: Fr, b: Fr) -> Fr {
+
     if b.cmp(&Fr::from(Fr::MODULUS_BIT_SIZE)).is_ge() {
         return Fr::zero();
     }
@@ -705,6 +702,15 @@ fn shr(a: Fr, b: Fr) -> Fr {
     if b.is_zero() {
         return a;
     }
+
+    // circom: for p/2 < k < p, x >> k = x << (p - k)
+    if HALF_M < fr_to_u256(&b) {
+        return shl_by(a, -b);
+    }
+    shr_by(a, b)
+}
+
+fn shr_by(a: Fr, b: Fr) -> Fr {
 
     match b.cmp(&Fr::from(254u64)) {
         Ordering::Equal => return Fr::zero(),
